@@ -117,13 +117,8 @@ abbrev Obj := List (Str × V)
 
 /-! ### small helpers -/
 
-def digitChar (d : Nat) : Char := Char.ofNat (48 + d)
-
 /-- decimal digits of `n`, most significant first (`u64`/`i64` `Display`) -/
-def natDigits (n : Nat) : Str :=
-  if h : n < 10 then [digitChar n] else natDigits (n / 10) ++ [digitChar (n % 10)]
-termination_by n
-decreasing_by omega
+def natDigits (n : Nat) : Str := (Nat.toDigits 10 n)
 def intRepr (i : Int) : Str := if i < 0 then '-' :: natDigits i.natAbs else natDigits i.natAbs
 
 /-- `char::is_whitespace` = Unicode White_Space (25 code points). -/
